@@ -73,6 +73,29 @@ def _urllib(fname):
     return f
 
 
+def html_escape_term(s, quote=True):
+    from .strings import replace_all
+    for a, b in (('&', '&amp;'), ('<', '&lt;'), ('>', '&gt;')) + ((('"', '&quot;'), ("'", '&#x27;')) if quote else ()):
+        s = replace_all(s, S(a), S(b))
+    return s
+
+
+def html_escape(E, args, kwargs, node):
+    """html.escape(s, quote): the five str.replace calls of the stdlib implementation, as a term (not an assumption)"""
+    v = args[0]
+    q = args[1] if len(args) > 1 else kwargs.get('quote', VC(True))
+    if not isinstance(q, VC):
+        raise Unsupported('html.escape with symbolic quote flag')
+    if isinstance(v, VC) and isinstance(v.v, str):
+        import html as _h
+        return VC(_h.escape(v.v, bool(q.v)))
+    if ops.known_type(E, v) != 'str':
+        raise Unsupported('html.escape of a non-str value')
+    E.lib_used.add('html.escape(s, quote=True) == s.replace("&", "&amp;").replace("<", "&lt;").replace(">", "&gt;")'
+                   '.replace(\'"\', "&quot;").replace("\'", "&#x27;") (stdlib source, inlined as a term)')
+    return VS(html_escape_term(E.as_z3_str(v), bool(q.v)))
+
+
 TAINTED = 'AccessControl.tainted.TaintedString'
 
 
@@ -174,6 +197,7 @@ def roman_to_roman(E, args, kwargs, node):
 
 
 TABLE = {
+    'html.escape': html_escape,
     'urllib.parse.quote': _urllib('quote'),
     'urllib.parse.quote_plus': _urllib('quote_plus'),
     'urllib.parse.unquote': _urllib('unquote'),
